@@ -143,6 +143,19 @@ CHECKS = {
             'Trusts the per-handle model; fixed tree layout with identifier names; singletons judged by the '
             'load counter.',
             'DESIGN.md section 3 / C12'),
+    'C13': ('exploration',
+            'property-based testing (Hypothesis): generated frame scripts of switch()/raise SwitchWorld/probe '
+            'requests issued from processors, on_update callbacks and coroutines over recording world handles '
+            'run by a real SimpleLoop; trace-invariant oracle over (instance, event) and (instance, process) '
+            'records',
+            'Randomised search with shrinking over switch sequences among 2-4 handles incl. self-switches, all '
+            'clear-flag combinations, cached and unloaded targets, three request sources and probes to left '
+            'worlds; the recorded trace is checked for frame abandonment, the instance processed next, '
+            'in/out event counts, order relative to load-time callbacks and held events, muting of left worlds '
+            'and freshness under clear flags. Small-scope confidence, no proof.',
+            'Event arguments compared only without clear flags; load counts recorded, not asserted; switch() '
+            'called with the current world or through desper.default_loop.',
+            'DESIGN.md section 3 / C13'),
     'C14': ('fault_enumeration',
             'property-based testing (Hypothesis) of base scripts (clock readings, worlds, restarts) + exhaustive '
             'enumeration of every single fault position (iteration x processor x action) per base script; '
